@@ -1,4 +1,5 @@
 import StorageModel.Tx.Failures
+import StorageModel.Tx.GroupLemmas
 import StorageModel.Generated.CrudReturns
 /-
   C07 — Transactions are all-or-nothing and every failure reaches the caller.
@@ -429,5 +430,63 @@ example :
       { mode := .batch, reuseCtx := false, body := [.addCommit 1, .op (.create .P "p1" ⟨"n", [], none, [], []⟩ "") .none false, .fail1 7] }).fired
       = [.commitActions [1, 1], .listener .P 0 0 false .created (some (.parent "p1" ⟨"n", [], none, [], []⟩)), .txComplete 0] := by
   decide +kernel
+
+/-! ## batch groups: several Db.Batch calls coalesced by bbolt into one batch (Tx/Group.lean)
+
+  bbolt runs the queued calls, in arrival order, inside ONE transaction; when a member's function returns an error
+  the shared transaction is rolled back, that member is re-run alone (its result goes to its caller) and the others
+  are re-run together.  The theorems hold for every schedule of the solo re-runs relative to the rounds of the batch,
+  any number of members, any bodies that hand operation errors on, any fault positions (see also Properties/C08.lean
+  for what the committed transactions deliver). -/
+
+/-- **all-or-nothing for batch groups**: a transaction of the group that does not commit — the shared transaction
+    in which some member failed, a failed solo re-run — leaves the database as it was and delivers nothing; the
+    transactions of the group follow one another on the database (so the database after the group is the result of the
+    committed ones alone); and a call that returned an error is part of no committed transaction. -/
+theorem batch_group_atomic (env : Env) (specs : Nat → Member) (db : Db) (ctxs : Nat → Ctx)
+    (arrival : List Nat) (hn : arrival.Nodup) (sched : List Sched) :
+    (∀ t ∈ (runGroup (modelRunner env) specs db ctxs arrival sched).txs, t.committed = false →
+      t.dbAfter = t.dbBefore ∧ t.fired = []) ∧
+    Linked db (runGroup (modelRunner env) specs db ctxs arrival sched).txs
+      (runGroup (modelRunner env) specs db ctxs arrival sched).db ∧
+    (∀ k e, (runGroup (modelRunner env) specs db ctxs arrival sched).result k = some (.err e) →
+      committedWith k (runGroup (modelRunner env) specs db ctxs arrival sched).txs = 0) := by
+  have hi := runGroup_inv (modelRunner env) specs db ctxs arrival hn sched
+  refine ⟨?_, hi.linked, ?_⟩
+  · intro t ht hc
+    exact ⟨(hi.wf t ht).rolled hc, by simp [GTx.fired, hc]⟩
+  · intro k e hr
+    rw [hi.count k, hr]
+    simp
+
+/-- **no false success in a batch group**: a Db.Batch call that returns nil was invoked in a committed transaction,
+    and that invocation is one the spec accepts — no step of the body rejected (validation, index, foreign key,
+    constraint veto, injected storage error), no error returned by the caller's function, no failing pre-commit action —
+    on the database as it was inside that transaction.  Contrapositive: a member all of whose invocations are rejected
+    never reports success. -/
+theorem batch_group_no_false_success (env : Env) (h : FromCode env) (specs : Nat → Member)
+    (hw : ∀ k, Propagating (specs k).body) (db : Db) (ctxs : Nat → Ctx) (arrival : List Nat) (hn : arrival.Nodup)
+    (sched : List Sched) (k : Nat)
+    (hok : (runGroup (modelRunner env) specs db ctxs arrival sched).result k = some .ok) :
+    ∃ t ∈ (runGroup (modelRunner env) specs db ctxs arrival sched).txs, t.committed = true ∧
+      ∃ p ∈ t.parts, p.member = k ∧ p.accepted env = true ∧ p.body = (specs k).bodyAt p.inv := by
+  have hi := runGroup_inv (modelRunner env) specs db ctxs arrival hn sched
+  have hc := hi.count k
+  rw [hok] at hc
+  simp only [if_true] at hc
+  unfold committedWith at hc
+  have hne : (List.filter (fun t => t.committed && t.invoked.contains k)
+      (runGroup (modelRunner env) specs db ctxs arrival sched).txs) ≠ [] := by
+    intro e; rw [e] at hc; cases hc
+  obtain ⟨t, ht⟩ := List.exists_mem_of_ne_nil _ hne
+  obtain ⟨ht1, ht2⟩ := List.mem_filter.mp ht
+  simp only [Bool.and_eq_true, List.contains_iff_mem, GTx.invoked, List.mem_map] at ht2
+  obtain ⟨hcm, p, hp, hpm⟩ := ht2
+  have hwf := hi.wf t ht1
+  have hf := hwf.parts p hp
+  have hpp : Propagating p.body := by rw [hf.2]; exact bodyAt_propagating _ (hw _) _
+  have hpok := chainOk_all_ok _ _ _ (hwf.chain hcm) p hp
+  obtain ⟨_, m2, _⟩ := part_model env h.expected specs p hf hpp
+  exact ⟨t, ht1, hcm, p, hp, hpm, m2.mp hpok, by rw [← hpm]; exact hf.2⟩
 
 end StorageModel.Properties.C07
